@@ -55,10 +55,10 @@ func fastPathObserver(obs string) bool {
 
 var specC01 = &worldSpec{
 	Prop: "C01",
-	Profile: &Profile{MinSteps: 20, MaxSteps: 70, W: weights(map[string]int{"replay": 8, "hold": 4, "reload": 5, "reload_invalid": 1, "setinit": 1}),
+	Profile: &Profile{MinSteps: 20, MaxSteps: 70, QuietOneIn: 4, W: weights(map[string]int{"replay": 8, "hold": 4, "reload": 5, "reload_invalid": 1, "setinit": 1}),
 		Backends: []string{"mem", "mem", "mem", "trace", "prefix", "prefix"}},
 	Obs:  Observers{Reads: true},
-	Rule: "history of 20-70 steps over {set,remove,setnil,save,rollback,reopen(cfg re-drawn, latest|older),reload(LoadVersion on the live handle, latest|older; out-of-range targets must fail without effect),hold(an ImmutableTree kept and re-read after every later step),replay(after a reopen at an older version: the recorded writes of the next existing version + its idempotent re-commit),prune,lvfo,dvf}; non-trivial = >=2 commits, a retained or past version with >=2 keys, and at least one of {removal, reopen, prune, rollback}; distinct = sha256 of the JSON history",
+	Rule: "history of 20-70 steps over {set,remove,setnil,save,rollback,reopen(cfg re-drawn, latest|older),reload(LoadVersion on the live handle, latest|older; out-of-range targets must fail without effect),hold(an ImmutableTree kept and re-read after every later step),vread(a checked read / proof / hash of one drawn version, preferably the version asked for last time),replay(after a reopen at an older version: the recorded writes of the next existing version + its idempotent re-commit),prune,lvfo,dvf}; in a quarter of the cases (quiet cases) the observers run only after the last step and the checked steps are the vread steps, so that the observers own calls cannot refresh a stale cache; non-trivial = >=2 commits, a retained or past version with >=2 keys, and at least one of {removal, reopen, prune, rollback}; distinct = sha256 of the JSON history",
 	Nontrivial: func(w *World) bool {
 		return w.Cnt["commits"] >= 2 && w.Cnt["max_keys"] >= 2 &&
 			(w.Labels["removal"] || w.Labels["reopen"] || w.Labels["prune"] || w.Labels["rollback"] || w.Labels["lvfo"] || w.Labels["dvf"])
@@ -79,7 +79,7 @@ func trackMaxKeys(w *World, op Op) *Violation {
 // ---------------------------------------------------------------- C02 canonical root hash
 var specC02 = &worldSpec{
 	Prop: "C02",
-	Profile: &Profile{MinSteps: 20, MaxSteps: 70,
+	Profile: &Profile{MinSteps: 20, MaxSteps: 70, QuietOneIn: 5,
 		W:        weights(map[string]int{"read": 22, "hop": 2, "remove": 16, "replay": 12, "hold": 3, "reload": 4, "setinit": 2, "setnil": 2}),
 		Backends: []string{"mem", "mem", "trace", "prefix"}},
 	Obs:  Observers{Hash: true, NoStepWorkingHash: true},
@@ -95,8 +95,8 @@ func TestC02(t *testing.T) { runWorldSpec(t, withLevel(specC02)) }
 // ---------------------------------------------------------------- C03 ICS-23 proofs
 var specC03 = &worldSpec{
 	Prop: "C03",
-	Profile: &Profile{MinSteps: 12, MaxSteps: 40,
-		W:        weights(map[string]int{"setnil": 0, "lvfo": 1, "dvf": 1, "prune": 5, "setinit": 2}),
+	Profile: &Profile{MinSteps: 12, MaxSteps: 40, QuietOneIn: 3,
+		W:        weights(map[string]int{"setnil": 0, "lvfo": 4, "dvf": 1, "prune": 5, "setinit": 2, "vread": 3}),
 		Backends: []string{"mem"}},
 	Obs:  Observers{Proofs: true},
 	Rule: "history of 12-40 steps; after every step, for every retained non-empty version and the working tree and every probe key (all present keys; absent: below min, above max, neighbours, prefixes, extensions) the proof of the right kind must be produced and must verify with ics23.Verify(Non)Membership(IavlSpec) against the REFERENCE root; it must not verify for another value, another key, the opposite claim or the reference root of another retained version in which the claim is false; wrong-kind requests must error; on committed versions the tree's own VerifyMembership / VerifyNonMembership / VerifyProof accept its proofs and reject the opposite claim. non-trivial = some version with >=2 keys, both proof kinds exercised, and a proof path with nodes of >=2 versions; distinct = sha256 of the history",
@@ -131,7 +131,7 @@ func TestC04(t *testing.T) { runWorldSpec(t, withLevel(specC04)) }
 // ---------------------------------------------------------------- C07 fast index coherence
 var specC07 = &worldSpec{
 	Prop: "C07",
-	Profile: &Profile{MinSteps: 15, MaxSteps: 60,
+	Profile: &Profile{MinSteps: 15, MaxSteps: 60, QuietOneIn: 4,
 		W:        weights(map[string]int{"reopen": 16, "setnil": 0, "hop": 1, "remove": 16, "lvfo": 5, "dvf": 3, "replay": 8, "hold": 5, "reload": 6}),
 		Backends: []string{"mem", "mem", "trace", "prefix"}},
 	Obs:  Observers{Fast: true, Reads: true},
@@ -196,7 +196,7 @@ func TestC13a(t *testing.T) { runWorldSpec(t, withLevel(specC13)) }
 // ---------------------------------------------------------------- C14 version bookkeeping
 var specC14 = &worldSpec{
 	Prop: "C14",
-	Profile: &Profile{MinSteps: 15, MaxSteps: 55, W: weights(mergeW(pruneWeights, map[string]int{"reopen": 12, "save": 26, "lvfo_invalid": 3, "reload": 6, "reload_invalid": 3, "setinit": 2})),
+	Profile: &Profile{MinSteps: 15, MaxSteps: 55, QuietOneIn: 4, W: weights(mergeW(pruneWeights, map[string]int{"reopen": 12, "save": 26, "lvfo_invalid": 3, "reload": 6, "reload_invalid": 3, "setinit": 2})),
 		Backends: []string{"mem", "mem", "trace", "prefix"}},
 	Obs:  Observers{Versions: true, Fresh: true, Light: true},
 	Rule: "history of 15-55 steps (C04 profile + InitialVersion unset/1/2/7/63/64/127/128/8191/8192/2^31-1/2^33 configured by the option or by SetInitialVersion (also called on the live handle at arbitrary moments: ignored unless the store is empty), reopen / LoadVersion on the live handle at older versions (out-of-range targets must fail and leave the tree as it was) and re-commit, both of drawn writes and of the exact recorded writes of the existing version); after every step and through a fresh handle after prune/rollback: commit numbers consecutive from 1 or InitialVersion; VersionExists(v), GetImmutable(v), GetVersioned(k,v), LoadVersion(v) on a throw-away handle for every v in {0,1} U [first-ever-1, latest+1], AvailableVersions, GetLatestVersion agree with the model range; re-commit of an existing number succeeds without effect iff the reference hashes are equal, else errors with a byte-identical store. non-trivial = >=1 prune or rollback of versions and >=1 reopen",
